@@ -4,6 +4,7 @@ C14, C15 evaluated on what the implementation did.  Used by props/c01.py, c05.py
 import implenv  # noqa: F401
 
 import asyncio
+import os
 
 import fake_amqp
 import vtime
@@ -505,6 +506,8 @@ def predicates(s: Session, res: Result, label: str, only: str | None) -> None:
 
 def one_session(arg) -> Result:
     seed, i, profile, only, n_ops = arg
+    # sessions alternate between processes in UTC, five hours west and five and a half hours east of it
+    vtime.set_tz(["UTC", "XXX+5", "XXX-5:30"][i % 3] if not os.environ.get("VERIF_TZ") else os.environ["VERIF_TZ"])
     res = Result(only or "rabbit")
     model = Model()
     rng = Rng(seed, f"rabbit/{profile}/{i}")
@@ -563,6 +566,7 @@ def one_special(arg) -> Result:
 
 
 def _dispatch(item) -> Result:
+    vtime.set_tz(os.environ.get("VERIF_TZ", "UTC"))       # (pool workers are reused: every item starts from the run's zone)
     return one_session(item[1:]) if item[0] == "s" else one_special(item[1:])
 
 
